@@ -61,7 +61,7 @@ inductive NOp
   | cap (c : Nat)              -- the stream cache's session capacity is (re)configured
 
 def nexec (n : Node) : NOp → Node
-  | .nd r => (nstep n r).1
+  | .nd r => (nstepP n r).1
   | .ev r => { n with db := (tstep n.db r).1 }
   | .bt rs => { n with db := (tbatch n.db rs).1 }
   | .lose => loseCache n
